@@ -4,6 +4,7 @@ import Fosite.Spec.Scope
 import Fosite.Driver.PureAudience
 import Fosite.Driver.PureHMAC
 import Fosite.Driver.PureRedirect
+import Fosite.Driver.PureRender
 namespace Fosite.Driver
 open Fosite
 
@@ -16,6 +17,7 @@ def pureModel (fs : List String) : Option String :=
   | "audience" :: _ => pureModelAudience fs
   | "hmac" :: _ => pureModelHMAC fs
   | "redirect" :: _ => pureModelRedirect fs
+  | "render" :: _ => pureModelRender fs
   | _ => none
 
 /-- spec side: the documented meaning, used as the monitor oracle on implementation outputs -/
@@ -27,6 +29,7 @@ def pureSpec (fs : List String) : Option String :=
   | "audience" :: _ => pureSpecAudience fs
   | "hmac" :: _ => pureSpecHMAC fs
   | "redirect" :: _ => pureSpecRedirect fs
+  | "render" :: _ => pureSpecRender fs
   | _ => none
 
 end Fosite.Driver
